@@ -257,7 +257,10 @@ int32_t jls_raw_wr_payload(struct jls_raw_s * self, uint32_t payload_length, con
         RLE(jls_raw_rd_header(self, hdr));
     }
     if (!payload_length) {
-        return 0;  // no action necessary
+        if (self->backend.fpos >= self->backend.fend) {
+            self->last_payload_length = 0;  // appended a chunk without payload
+        }
+        return 0;  // no further action necessary
     }
     if (!payload) {
         return JLS_ERROR_PARAMETER_INVALID;
